@@ -8,8 +8,13 @@ from vlib.exactq import ExactQ
 from C19_util import FQ, frac_of
 
 PID = "C19"
-PROP_FILES = ["Prop"]
-ALLOWED_AXIOMS = []
+PROP_FILES = ["Prop", "PropR"]
+# Prop.v (and all it imports) is axiom-free: enforced syntactically by extra() below.  PropR.v (sinusoid over
+# the reals) uses Coq's Reals (4 classical axioms) and, for the numeric bound on |2 pi - fl(2 pi)| only, the
+# interval tactic, which computes with the kernel's primitive 63-bit integers (their specifications are axioms).
+ALLOWED_AXIOMS = [r"ClassicalDedekindReals\.sig_forall_dec$", r"ClassicalDedekindReals\.sig_not_dec$",
+                  r"Classical_Prop\.classic$", r"FunctionalExtensionality\.functional_extensionality_dep$",
+                  r"Uint63\.[A-Za-z0-9_']+$", r"PrimInt63\.[A-Za-z0-9_']+$"]
 RULE = ("modulo_counter: all 8 numbers-vs-streams combinations x a rational grid of (start, modulo, step) with "
         "modulo/step in {<1, 1, 2, 5, non-integers}, negative / zero steps and steps that are multiples of the modulo, "
         "constant and varying streams of unequal length, 40 pulls (the batched path re-bases several times), zero and "
@@ -362,6 +367,16 @@ def gen_table(tier, rng):
       yield {"t": "call", "tbl": tbl, "cycles": fr(rng.choice([Fraction(1), Fraction(2), Fraction(1, 2), Fraction(0)])),
              "freq": {"num": fr(rng.choice(freqs))}, "phase": {"num": fr(Fraction(rng.randrange(-4, 5), 3))}, "k": 8,
              "tags": ["call", "size=%d" % n, "cycles=rational"]}
+      # machine int / float cycles (and the default cycles=1): the constant len/(cycles*2*pi) is a rounded float
+      for cyc in (["default", ["int", 1], ["int", 3], ["float", [1, 2]]] if tier == "thorough"
+                  else [rng.choice(["default", ["int", 1]]), rng.choice([["int", 2], ["float", [1, 2]], ["float", [3, 1]]])]):
+        kind = rng.choice(["nn", "nn", "sn", "ns", "ss"])
+        fq_ = rng.choice(freqs)
+        fa = {"num": fr(fq_)} if kind[0] == "n" else {"str": [fr(fq_ + Fraction(rng.randrange(-3, 4), 4)) for _ in range(rng.choice([5, 12]))]}
+        ph = Fraction(rng.randrange(-8, 9), rng.choice([1, 2, 3]))
+        pa = {"num": fr(ph)} if kind[1] == "n" else {"str": [fr(ph + Fraction(rng.randrange(-3, 4), 4)) for _ in range(rng.choice([7, 12]))]}
+        yield {"t": "callf", "tbl": tbl, "cyc": cyc, "freq": fa, "phase": pa, "k": 10,
+               "tags": ["call", "size=%d" % n, "cycles=" + (cyc if cyc == "default" else cyc[0]), "args=" + kind]}
       for idx in [Fraction(0), Fraction(1, 2), Fraction(n), Fraction(2 * n) + Fraction(1, 3), Fraction(n) - Fraction(1, 4),
                   Fraction(-1), Fraction(-7, 2), Fraction(rng.randrange(-20, 40), rng.choice([1, 2, 3, 7]))]:
         yield {"t": "get", "tbl": tbl, "idx": fr(idx), "tags": ["getitem", "size=%d" % n, "idx<0" if idx < 0 else "idx>=0"]}
@@ -393,6 +408,25 @@ def run_table(c):
     if t == "call":
       T = TL([ExactQ(F(x)) for x in c["tbl"]], cycles=ExactQ(F(c["cycles"])))
       return observe(lambda: T(mk_arg(c["freq"], "q", stream=True), mk_arg(c["phase"], "q", stream=True)), c["k"])
+    if t == "callf":
+      from audiolazy import lazy_synth as ls
+      cyc = c["cyc"]
+      tb = [ExactQ(F(x)) for x in c["tbl"]]
+      T = TL(tb) if cyc == "default" else TL(tb, cycles=(int(cyc[1]) if cyc[0] == "int" else float(F(cyc[1]))))
+      # the implementation's own constant: with freq = 1 the step handed to modulo_counter is cycle_length * 1
+      seen = []
+      orig = ls.modulo_counter
+      def spy(part, modulo, step):
+        seen.append(step)
+        return orig(part, modulo, step)
+      ls.modulo_counter = spy
+      try:
+        T(ExactQ(1), ExactQ(0))
+      finally:
+        ls.modulo_counter = orig
+      o = observe(lambda: T(mk_arg(c["freq"], "q", stream=True), mk_arg(c["phase"], "q", stream=True)), c["k"])
+      o["cl"] = fr(frac_of(seen[0]))
+      return o
     if t == "get":
       T = TL([ExactQ(F(x)) for x in c["tbl"]])
       return {"val": fr(frac_of(T[ExactQ(F(c["idx"]))]))}
@@ -419,6 +453,11 @@ def lit_table(c, o):
   t = c["t"]
   if t == "call":
     cl = "(TCall %s %s %s %s %s)" % (qlist(c["tbl"]), q(c["cycles"]), arg_lit(c["freq"]), arg_lit(c["phase"]), L.nat(c["k"]))
+  elif t == "callf":
+    cyc = c["cyc"]
+    cycles = [1, 1] if cyc == "default" else (fr(cyc[1]) if cyc[0] == "int" else cyc[1])
+    cl = "(TCallF %s %s %s %s %s %s)" % (qlist(c["tbl"]), q(cycles), q(o.get("cl", [987654321, 1])), arg_lit(c["freq"]),
+                                         arg_lit(c["phase"]), L.nat(c["k"]))
   elif t == "get":
     cl = "(TGet %s %s)" % (qlist(c["tbl"]), q(c["idx"]))
   elif t == "bintt":
@@ -587,3 +626,18 @@ FAMILIES = {
                      lit_resample, nontrivial),
   "osc": Family("osc", IMPORTS, "o_case", "corr_osc", "holds_osc", gen_osc, run_osc, lit_osc, nontrivial),
 }
+
+
+def extra(chk, tier, rng):
+  """Prop.v must stay axiom-free: nothing it can import may mention Reals / classical logic / Interval."""
+  import os, re, glob
+  from vlib.framework import strip_comments
+  d = chk.coqdir()
+  for f in sorted(glob.glob(os.path.join(d, "*.v"))):
+    if os.path.basename(f) in ("ProofsR.v", "PropR.v"):
+      continue
+    txt = strip_comments(open(f).read())
+    m = re.search(r"\b(Reals|Interval|Classical\w*|FunctionalExtensionality|ProofsR|Coquelicot|Flocq)\b", txt)
+    if m:
+      chk.broken.append(("proof", "assumptions", "%s mentions %s: Prop.v would no longer be axiom-free"
+                         % (os.path.basename(f), m.group(1))))
